@@ -266,18 +266,27 @@ Arguments t_indexes {coldesc}.
 Arguments t_constraints {coldesc}.
 
 (* ------------------------------------------------------------------ *)
-(* ReorderModels with autoAdd: dependencies first, each model once *)
+(* ReorderModels with autoAdd: dependencies first, each model once.  [None] = out of fuel. *)
+Fixpoint ofold {S A} (f : A -> S -> option S) (l : list A) (s : S) : option S :=
+  match l with
+  | [] => Some s
+  | a :: r => match f a s with Some s' => ofold f r s' | None => None end
+  end.
+
 Section Reorder.
   Variable deps : string -> list string.
-  Fixpoint visit (fuel : nat) (name : string) (st : list string * list string) : list string * list string :=
-    let '(seen, ordered) := st in
-    if existsb (String.eqb name) seen then st else
+  (* insertIntoOrderedList: state = (orderedModelNamesMap, orderedModelNames) *)
+  Fixpoint visit (fuel : nat) (name : string) (st : list string * list string)
+    : option (list string * list string) :=
+    if existsb (String.eqb name) (fst st) then Some st else
     match fuel with
-    | O => (name :: seen, ordered ++ [name])
+    | O => None
     | S fuel' =>
-        let '(seen', ordered') := fold_left (fun s d => visit fuel' d s) (deps name) (name :: seen, ordered) in
-        (seen', ordered' ++ [name])
+        match ofold (visit fuel') (deps name) (name :: fst st, snd st) with
+        | Some st' => Some (fst st', snd st' ++ [name])
+        | None => None
+        end
     end.
-  Definition reorder (fuel : nat) (names : list string) : list string :=
-    snd (fold_left (fun s n => visit fuel n s) names ([], [])).
+  Definition reorder (fuel : nat) (names : list string) : option (list string) :=
+    match ofold (visit fuel) names ([], []) with Some st => Some (snd st) | None => None end.
 End Reorder.
